@@ -412,6 +412,6 @@ def run(ctx):
     from . import C04, C01
     from .C03 import tree_rules
     for r in (C04.rule_empty, C04.rule_temporal, C04.rule_window, C04.rule_nan, C04.rule_swap, C04.rule_offsets, C04.rule_cache, C04.rule_reuse, C04.rule_grid, C04.rule_interval, C04.rule_thresholds,
-              C01.rule_semiopen, C01.rule_prune, C01.rule_exclude, C01.rule_pathstate):
+              C01.rule_semiopen, C01.rule_prune, C01.rule_exclude, C01.rule_pathstate, C01.rule_trunc_table):
         ctx.attempt(r, ctx)
     tree_rules(ctx, which=("pred", "partition", "descent_q", "scan_q", "early_q", "rows", "empty", "extent", "api"))
